@@ -11,7 +11,8 @@ RULE = ('real os.fork() at every enumerated position relative to the parent\'s s
         'after db.disconnect(); after a mid-session commit; inside an immediate session) x process order (child first, '
         'parent first, alternating, serialised through pipes) x forking thread (main / non-main) x 1-2 child sessions; plus, for the idle positions, a '
         'child whose first own connect fails, a second Database with its own pooled connection that the child uses too, and a '
-        'child that forks again (the grandchild must not use the child\'s connection, the child goes on using its own); '
+        'child that forks again (the grandchild must not use the child\'s connection, the child goes on using its own; '
+        'also a child that never connects itself, so that the grandchild inherits the first process\'s connection); '
         'every proxy connection remembers the pid that opened it; oracle: no call on a connection from another pid, '
         'child and parent sessions complete (only cross-process "database is locked" is tolerated, timeout=0), rows '
         'committed by either side are visible afterwards. Every case is non-trivial; the grid is enumerated completely.')
@@ -44,6 +45,12 @@ def grid(seed):
     for pos, second, thread in itertools.product(('no_connection', 'pooled_idle', 'after_disconnect'), (False, True), (False, True)):
         yield {'engine': 'fork', 'isolate': True, 'position': pos, 'order': 'child_first', 'thread': thread,
                'child_sessions': 1, 'grandchild': True, 'second_db': second, 'seed': derive(seed, 'c36', i), 'timeout': 60}
+        i += 1
+    # ... and a child that only supervises: it forks the worker without ever using the database itself, so the
+    # connection the worker inherits was opened two generations up
+    for pos, second, thread in itertools.product(('pooled_idle', 'after_disconnect', 'no_connection'), (False, True), (False, True)):
+        yield {'engine': 'fork', 'isolate': True, 'position': pos, 'order': 'child_first', 'thread': thread,
+               'child_sessions': 0, 'grandchild': True, 'second_db': second, 'seed': derive(seed, 'c36', i), 'timeout': 60}
         i += 1
     # the child calls db.disconnect(): before its first session, or between two of its sessions
     for pos, when, second, thread in itertools.product(('pooled_idle', 'after_disconnect', 'no_connection'), ('first', 'after'),
